@@ -1,0 +1,61 @@
+//go:build verif
+
+// Contracts for gvc (/verif). Comment-only: this file adds no declarations.
+
+package parse
+
+// ---------------------------------------------------------------------------
+// C03: quoted strings read back as the original.
+
+//@ spec fn ishex(r rune) bool = ('0' <= r && r <= '9') || ('a' <= r && r <= 'f') || ('A' <= r && r <= 'F')
+//@ spec fn islowerhex(b byte) bool = ('0' <= b && b <= '9') || ('a' <= b && b <= 'f')
+
+//@ func hexToDigit
+//@   props C03
+//@   pure
+//@   results d ok
+//@   ensures ok == ishex(r)
+//@   ensures ok ==> 0 <= d && d <= 15
+//@   ensures '0' <= r && r <= '9' ==> d == r - '0'
+//@   ensures 'a' <= r && r <= 'f' ==> d == r - 'a' + 10
+//@   ensures 'A' <= r && r <= 'F' ==> d == r - 'A' + 10
+//@   ensures !ok ==> d == -1
+
+//@ func rtohex
+//@   props C03
+//@   inline
+//@   requires 0 <= w && w <= 8 && 0 <= r
+//@   loop 1 unroll 8
+//@   ensures len(result) == w && fresh(result)
+//@   ensures forall k int :: 0 <= k && k < w ==> islowerhex(result[k])
+//@   ensures w == 2 ==> result[1] == (r % 16 <= 9 ? '0' + r % 16 : 'a' + r % 16 - 10) && result[0] == (r / 16 % 16 <= 9 ? '0' + r / 16 % 16 : 'a' + r / 16 % 16 - 10)
+
+//@ func verifHexRoundTrip
+//@   props C03
+//@   requires w == 2 || w == 4 || w == 8
+//@   requires 0 <= r
+//@   loop 1 unroll 8
+//@   ensures [digits-accepted] ok
+//@   ensures [x-escape] w == 2 && r < 256 ==> back == r
+//@   ensures [u-escape] w == 4 && r <= 65535 ==> back == r
+//@   ensures [U-escape] w == 8 ==> back == r
+
+//@ func quoteAs
+//@   props C03
+//@   results out typ
+//@   loop 1 invariant len(s) > 0 && (bare ==> s[0] != '~')
+//@   ensures q == DoubleQuoted ==> typ == DoubleQuoted
+//@   ensures len(s) == 0 ==> typ != Bareword
+//   a bareword is only ever the string itself, never starts with ~, and is only produced on request
+//@   ensures typ == Bareword ==> q == Bareword && out === s && len(s) > 0 && s[0] != '~'
+//@   ensures typ == Bareword || typ == SingleQuoted || typ == DoubleQuoted
+
+//@ func quoteDouble
+//@   trusted
+//@   pure
+//@ func quoteSingle
+//@   trusted
+//@   pure
+//@ func allowedInBareword
+//@   trusted
+//@   pure
